@@ -41,7 +41,11 @@ func isRelType(tp reflect.Type) bool {
 // typeFor returns a distinct reflect type per k. Mixes sizes, pointer-bearing and relation shapes.
 func typeFor(k int) reflect.Type {
 	i8 := reflect.TypeFor[int8]()
-	switch k % 5 {
+	sel := k % 5
+	if relOnly {
+		sel = 4
+	}
+	switch sel {
 	case 4: // a relation component: embedded ecs.RelationMarker as first field
 		return reflect.StructOf([]reflect.StructField{
 			{Name: "RelationMarker", Type: reflect.TypeFor[ecs.RelationMarker](), Anonymous: true},
@@ -56,6 +60,9 @@ func typeFor(k int) reflect.Type {
 		return reflect.StructOf([]reflect.StructField{{Name: "S", Type: reflect.TypeFor[string]()}, {Name: "A", Type: reflect.ArrayOf(k+1, i8)}})
 	}
 }
+
+// relOnly makes typeFor return relation-shaped types only (every 6th case: all registered types are relations).
+var relOnly bool
 
 func main() {
 	seed := flag.Uint64("seed", 1, "")
@@ -101,7 +108,11 @@ func main() {
 		if c >= MAX+1 {
 			n = r.Intn(MAX + 1)
 		}
-		desc := []string{fmt.Sprintf("max=%d register %d types then probe", MAX, n)}
+		relOnly = c%6 == 5
+		if relOnly && c < 4*(MAX+1) {
+			n = MAX - (c/6)%3 // around the maximum: MAX, MAX-1, MAX-2 relation components on one entity
+		}
+		desc := []string{fmt.Sprintf("max=%d register %d types then probe (relation types only: %v)", MAX, n, relOnly)}
 		func() {
 			// a panic escaping a valid call (e.g. from a query over a half-built archetype) is a violation, not a crash
 			defer func() {
@@ -116,7 +127,7 @@ func main() {
 			seen := map[uint8]int{}
 			// universe types take part, registered through the generic path at random positions
 			univAt := map[int]int{}
-			if n >= 8 {
+			if n >= 8 && !relOnly {
 				for _, c := range []int{u.IP8, u.IR1, u.IStr, u.IZ0} {
 					univAt[r.Intn(n)] = c
 				}
@@ -227,6 +238,44 @@ func main() {
 					if wq.Entity() == e {
 						bad("%s: Without(%d) query still visits the entity", what, sel[len(sel)-1].Index())
 					}
+				}
+				// a second entity with the same components and another target for every relation lives in another table
+				if len(rels) > 0 {
+					tgt := w.NewEntity()
+					rels2 := make([]ecs.Relation, len(rels))
+					k := 0
+					var relIDs []ecs.ID
+					for _, id := range sel {
+						if info, ok := ecs.ComponentInfo(w, id); ok && isRelType(info.Type) {
+							rels2[k] = ecs.RelID(id, tgt)
+							relIDs = append(relIDs, id)
+							k++
+						}
+					}
+					var e2 ecs.Entity
+					if p := try(func() { e2 = U.NewEntityRel(sel, rels2...) }); p != nil {
+						bad("%s: creating a second entity with %d relation targets panicked: %v", what, len(rels2), p)
+						return
+					}
+					cnt["entities-with-all-relation-targets-set"]++
+					for _, id := range []ecs.ID{relIDs[0], relIDs[len(relIDs)-1]} {
+						if t := U.GetRelation(e2, id); t != tgt {
+							bad("%s: relation %d of the second entity has target %v, want %v (%d relation components)", what, id.Index(), t, tgt, len(relIDs))
+						}
+						if t := U.GetRelation(e, id); !t.IsZero() {
+							bad("%s: relation %d of the first entity has target %v, want the zero entity", what, id.Index(), t)
+						}
+					}
+					qr := ecs.NewUnsafeFilter(w, sel...).Query(ecs.RelID(relIDs[len(relIDs)-1], tgt))
+					var got []ecs.Entity
+					for qr.Next() {
+						got = append(got, qr.Entity())
+					}
+					if len(got) != 1 || got[0] != e2 {
+						bad("%s: query by relation target finds %v, want [%v]", what, got, e2)
+					}
+					w.RemoveEntity(e2)
+					w.RemoveEntity(tgt)
 				}
 				if p := try(func() { U.Remove(e, sel[len(sel)-1]) }); p != nil {
 					bad("%s: removing component %d panicked: %v", what, sel[len(sel)-1].Index(), p)
